@@ -55,7 +55,7 @@ func (b *boundsSink) siteNormal(site ssa.Instruction) (string, int) {
 	core.EachInstr(fn, func(i ssa.Instruction) {
 		switch i.(type) {
 		case *ssa.Slice, *ssa.IndexAddr, *ssa.Index, *ssa.Lookup, *ssa.SliceToArrayPointer, *ssa.Call, *ssa.Panic, *ssa.BinOp,
-			*ssa.TypeAssert, *ssa.MakeSlice, *ssa.FieldAddr, *ssa.UnOp, *ssa.Store, *ssa.Go, *ssa.Defer:
+			*ssa.TypeAssert, *ssa.MakeSlice, *ssa.FieldAddr, *ssa.UnOp, *ssa.Store, *ssa.Go, *ssa.Defer, *ssa.MapUpdate, *ssa.Send:
 			f := absint.SiteString(i)
 			byForm[f] = append(byForm[f], i)
 		}
